@@ -239,6 +239,28 @@ fn section_strings(ctx: &mut Ctx) {
         let r = guarded(|| t.parse::<Cell>());
         ensure!(ctx, matches!(&r, Ok(x) if x.as_ref().ok().map(|c| c.index()) == wcell), s, "Cell parse {:?} = {:?}", t, r);
     }
+    // long strings: no documented spelling is longer than four characters, so every run of one
+    // symbol (lengths 5..=9 and around the powers of two up to 65537), alone, before and after a
+    // valid spelling, is refused by every parser
+    {
+        let mut ks: Vec<usize> = vec![5, 6, 7, 8, 9];
+        for e in [4u32, 5, 6, 7, 8, 10, 16] {
+            ks.extend([(1usize << e) - 1, 1 << e, (1 << e) + 1]);
+        }
+        for sym in ["e", "4", "K", "q", "-", "w", "b", "P", ".", " ", "\u{0}", "\u{e9}"] {
+            for &k in &ks {
+                let run = sym.repeat(k);
+                for stem in ["", "e4", "KQkq", "-", "w", "P", "Kq"] {
+                    for t in [format!("{}{}", stem, run), format!("{}{}", run, stem)] {
+                        ctx.states += 1;
+                        ctx.add(STRS, 1);
+                        let r = guarded(|| (t.parse::<Coord>().is_ok(), t.parse::<Color>().is_ok(), t.parse::<Cell>().is_ok(), t.parse::<CastlingRights>().is_ok()));
+                        ensure!(ctx, r == Ok((false, false, false, false)), s, "a string of {} bytes ({:?} + {} x {:?}) is accepted or panics: (Coord, Color, Cell, CastlingRights) = {:?}", t.len(), stem, k, sym, r);
+                    }
+                }
+            }
+        }
+    }
     // castling rights: all strings of length <= 5 over {K,Q,k,q,-,x}
     let alph = ['K', 'Q', 'k', 'q', '-', 'x'];
     for len in 0..=5u32 {
